@@ -234,7 +234,25 @@ type c08Case struct {
 	A ArithCase `json:"case"`
 }
 
+// c08One checks one case with a fresh destination and, for cases with a prescribed special outcome, again
+// with the destination aliasing the first and the second operand (the rules hold for in-place calls too).
 func c08One(op string, x Operand, y *Operand, qexp int32, cc CtxCase) (cls string, trivial bool, msg string) {
+	cls, trivial, msg = c08Alias(op, x, y, qexp, cc, 0)
+	if msg != "" || trivial {
+		return
+	}
+	for alias := 1; alias <= 2; alias++ {
+		if alias == 2 && y == nil {
+			break
+		}
+		if _, _, m := c08Alias(op, x, y, qexp, cc, alias); m != "" {
+			return cls, trivial, fmt.Sprintf("with the destination aliasing operand %d: %s", alias, m)
+		}
+	}
+	return
+}
+
+func c08Alias(op string, x Operand, y *Operand, qexp int32, cc CtxCase, alias int) (cls string, trivial bool, msg string) {
 	var yv ref.Val
 	var yd *apd.Decimal
 	if y != nil {
@@ -249,15 +267,24 @@ func c08One(op string, x Operand, y *Operand, qexp int32, cc CtxCase) (cls strin
 		cls += "-" + ref.FlagNames(exp.flags)
 	}
 	c := cc.C
-	var d apd.Decimal
-	res, err, pan := callOp(op, &c, &d, x.D, yd, qexp)
+	var d0 apd.Decimal
+	d, xd := &d0, x.D
+	switch alias {
+	case 1:
+		xd = x.J.Build()
+		d = xd
+	case 2:
+		yd = y.J.Build()
+		d = yd
+	}
+	res, err, pan := callOp(op, &c, d, xd, yd, qexp)
 	if pan != "" {
 		return cls, false, "panic: " + pan
 	}
 	if isSysErr(res, err) && nearLimit(x.V, yv) {
 		return cls + "/syslimit", false, ""
 	}
-	got := ToVal(&d)
+	got := ToVal(d)
 	f := int(res)
 	wantFlags := exp.flags
 	if exp.kind == kSameX {
